@@ -1891,10 +1891,13 @@ def apply_injections(rng, kinds_):
         except (IndexError, KeyError, ValueError):
             continue          # the first injection left nothing for the second one to attach to
         del s["base_ref"]
-        if (s["cfg_status"] == "CfgUnknownKey") != (s["raw_config"] is None and has_unknown_key(s)) and s["raw_config"] is None:
-            continue          # a later injection overwrote the unknown key
         if not init_consistent(s):
             continue
+        if s["raw_config"] is None and not s["no_config"]:
+            # the abstract world is derived from the configuration that is finally emitted: a later
+            # injection may have overwritten an earlier one's edit
+            bad_type = any(isinstance(s["root"].get(k), dict) for k in ("all", "force-file-write"))
+            s["cfg_status"] = "CfgUnknownKey" if has_unknown_key(s) else ("CfgBadType" if bad_type else "CfgOk")
         # the base only configures packages that are in its tree (an injection into a package that
         # an earlier injection added to the scenario must not leak into the base)
         for pth in list(base["packages"]):
@@ -1909,6 +1912,8 @@ def apply_injections(rng, kinds_):
         want = {t for t in s["tags"] if t in FAIL_CLASSES}
         if len(kinds_) > 1 or want <= cl or cl & {"UnknownKey", "ConfigUnreadable"}:
             if cl & FAIL_CLASSES:
+                # a scenario only claims the classes that the final configuration really is in
+                s["tags"] = [t for t in s["tags"] if t not in FAIL_CLASSES or t in cl]
                 return s, base
     raise RuntimeError("generator: could not place injection %s" % (kinds_,))
 
@@ -2108,7 +2113,9 @@ def check(ctx, only=None):
         bad_ = []
         if r["cls"] == "Panic":
             bad_.append("mockery terminated by an unrecovered panic on a malformed configuration: %s" % (re.findall(r"panic: [^\n]*", r["tail"]) or [r["tail"][-200:]])[0])
-        elif r["cls"] == "ExitErr" and not r["diag"]:
+        elif r["cls"] == "ExitErr" and not r["diag"] and b'"log-level"' not in s["raw_config"]:
+            # (a null / empty log-level parses to zerolog's NoLevel, which silences every message: the
+            # configuration asked for that, so a silent failure is not counted)
             bad_.append("non-zero exit without a diagnostic on a malformed configuration")
         if bad_:
             oracle_fail.append(("fuzz", {"what": bad_, "fuzz": [{"pkgs": s["pkgs"], "raw_config_hex": s["raw_config"].hex()}],
